@@ -6,4 +6,7 @@ cd "$here"
 mkdir -p run evidence lean/AbnfGen
 /venv/bin/python harness/extract.py
 cd lean
-lake build Abnf driver
+lake build driver
+# all theorem modules; each check rebuilds exactly the modules of its property, so a failing obligation is reported by
+# the property it belongs to and does not stop the others
+lake build Abnf || echo "setup: some proof obligations do not check on this tree (the checks of the properties concerned will report them)"
